@@ -26,13 +26,13 @@ RULE = (
     "unresolvable; backing {files in 1 root, files in 2 roots, put_string}. distinct = by (file set texts, "
     "backing); non-trivial = at least one reference crosses directories with a relative URI and resolves."
 )
-RULE += ' added since: twin references to one target, falsy include arguments, includes executed inside defs (context stack modelled), a base that itself includes a file, twin base templates in different directories, an inheritable namespace declared in the inheriting template, next-key probes. directed: templates whose URIs differ only in punctuation each declaring a same-named namespace and included into one render; the API (get_namespace / get_template / include_file) of a named file namespace declared in a deeper template. 2-3 nameless <%namespace import=> tags back to back / space separated / one per line.'
+RULE += ' added since: twin references to one target, falsy include arguments, includes executed inside defs (context stack modelled), a base that itself includes a file, twin base templates in different directories, an inheritable namespace declared in the inheriting template, next-key probes. directed: templates whose URIs differ only in punctuation each declaring a same-named namespace and included into one render; the API (get_namespace / get_template / include_file) of a named file namespace declared in a deeper template. 2-3 nameless <%namespace import=> tags back to back / space separated / one per line. relative <%inherit> URIs in chains of 3-4 templates over directories (direct / include / namespace; decoys).'
 ASSUMPTIONS = [
     "put_string-backed sets use relative URIs without dot segments only (keys are literal URIs)",
     "templates are identified by a tag in their text, not by Template.uri (which keeps the joined spelling)",
 ]
 MIN_NONTRIVIAL = 200
-REQUIRED_COUNTERS = ["sets_rendered", "relative_cross_directory_resolutions", "unresolvable_matched", "include_args_checked", "import_beats_context", "inline_def_precedence", "inheritable_via_self", "module_namespace_calls", "sibling_namespace_renders", "namespace_api_resolutions", "nameless_namespace_renders"]
+REQUIRED_COUNTERS = ["sets_rendered", "relative_cross_directory_resolutions", "unresolvable_matched", "include_args_checked", "import_beats_context", "inline_def_precedence", "inheritable_via_self", "module_namespace_calls", "sibling_namespace_renders", "namespace_api_resolutions", "nameless_namespace_renders", "relative_inherit_chains"]
 
 _st = {}
 
@@ -548,6 +548,52 @@ def run_directed(res):
                 if got != exp:
                     res.violate("nameless-namespaces", "%d nameless <%%namespace import=> tags %s (%s): rendered %r, expected %r" % (n, sep_name, style, got, exp))
                 res.nontrivial("nameless", sep_name, n, style)
+
+    # (D) inheritance chains of three and four templates spread over directories, every <%inherit> written as a
+    # relative URI: each resolves against the template it is written in, not against the leaf being rendered -
+    # rendered directly, through an <%include> and through a <%namespace>; decoys of the same name sit beside the leaf
+    for levels in (3, 4):
+        for backing in ("put_string", "files"):
+            files = {
+                "/a/leaf.html": '<%inherit file="../b/mid.html"/>leaf<%def name="who()">leaf:${self.kind()}</%def>',
+                "/b/mid.html": '<%%inherit file="%s"/>mid(${next.body()})' % ("base.html" if levels == 3 else "c/mid2.html"),
+                "/b/base.html": 'RIGHTBASE[${next.body()}]<%def name="kind()">right</%def>',
+                "/a/base.html": 'WRONGBASE[${next.body()}]<%def name="kind()">wrong</%def>',
+                "/base.html": 'ROOTBASE[${next.body()}]<%def name="kind()">root</%def>',
+                "/b/c/mid2.html": '<%inherit file="../base.html"/>mid2(${next.body()})',
+                "/a/c/mid2.html": '<%inherit file="../base.html"/>WRONGMID2(${next.body()})',
+                "/main_inc.html": 'I{<%include file="a/leaf.html"/>}',
+                "/x/main_ns.html": '<%namespace name="n" file="../a/leaf.html"/>N{${n.body()}|${n.who()}}',
+            }
+            if backing == "put_string":
+                # (keys are literal URIs: the relative spellings are normalised by hand)
+                lk = L()
+                norm = {"/a/leaf.html": '<%inherit file="/b/mid.html"/>leaf<%def name="who()">leaf:${self.kind()}</%def>',
+                        "/b/c/mid2.html": '<%inherit file="/b/base.html"/>mid2(${next.body()})', "/a/c/mid2.html": '<%inherit file="/a/base.html"/>WRONGMID2(${next.body()})',
+                        "/x/main_ns.html": '<%namespace name="n" file="/a/leaf.html"/>N{${n.body()}|${n.who()}}'}
+                for u, t in files.items():
+                    lk.put_string(u, norm.get(u, t))
+                root = None
+            else:
+                _st["n"] += 1
+                root = os.path.join(_st["tmp"], "e%d" % _st["n"])
+                for u, t in files.items():
+                    fp = os.path.join(root, u.lstrip("/"))
+                    os.makedirs(os.path.dirname(fp), exist_ok=True)
+                    with open(fp, "w") as fh:
+                        fh.write(t)
+                lk = L(directories=[root])
+            inner = "RIGHTBASE[mid(leaf)]" if levels == 3 else "RIGHTBASE[mid2(mid(leaf))]"
+            # (a namespace's body() is the template's own body; its defs see the template's own inheritance chain)
+            for uri, want in (("/a/leaf.html", inner), ("/main_inc.html", "I{%s}" % inner), ("/x/main_ns.html", "N{leaf|leaf:right}")):
+                got = render(lk, uri)
+                res.evaluations += 1
+                res.count("relative_inherit_chains")
+                if got != want:
+                    res.violate("relative-inherit-chain", "%d-level chain over directories (%s), rendering %s: %r, expected %r" % (levels, backing, uri, got, want))
+            if root:
+                shutil.rmtree(root, ignore_errors=True)
+            res.nontrivial("rel-inherit", levels, backing)
 
     # (B) the Namespace API of a FILE namespace declared in a deeper template: get_namespace / get_template /
     # include_file with a relative URI resolve against the namespace's own template (documented on
